@@ -613,7 +613,9 @@ def resolve_strategy_inline_recurse(path, base, decisions):
                 }
 
             elif k == 'id':
-                cell[k] = lcell[k]
+                # Only one of the cells has an id when the two sides
+                # were saved with different format minor versions
+                cell[k] = lcell[k] if k in lcell else rcell[k]
 
             elif k == 'execution_count':
                 cell[k] = None  # Clear
